@@ -108,12 +108,20 @@ def run(ctx):
         if key not in studies:
           sc = svz.StudyConfig()
           # two construction routes: user-facing selectors, and ParameterConfig.factory(children=...) with multi-valued parent sets
-          sc.search_space = ssutil.build_space_factory(tree) if route == 'factory' else ssutil.build_space(tree)
+          try:
+            sc.search_space = ssutil.build_space_factory(tree) if route == 'factory' else ssutil.build_space(tree)
+          except Exception as e:  # pylint: disable=broad-except
+            ctx.violation({'via': 'present', 'what': 'valid-definition-refused', 'route': route, 'error': type(e).__name__},
+                          {'kind': 'present', 'tree': tree, 'route': route, 'error': '%s: %s' % (type(e).__name__, str(e)[:200])})
+            studies[key] = None
+            continue
           sc.metric_information.append(vz.MetricInformation('a', goal=vz.ObjectiveMetricGoal.MAXIMIZE))
           sc.algorithm = 'RANDOM_SEARCH'
           st = svc.CreateStudy(vs.CreateStudyRequest(parent='owners/c17', study=study_pb2.Study(
               display_name='t%d' % len(studies), study_spec=sc.to_proto())))
           studies[key] = (st.name, sc)
+        if studies[key] is None:
+          continue
         name, sc = studies[key]
         # store the trial through the service: numbers travel as doubles, booleans and categories as strings
         t = study_pb2.Trial()
